@@ -141,6 +141,8 @@ UNITS += [
          rewrites=[
              Rw("Self::Item", "RusticResult<Vec<u8>>", sig=True, why="trait impl -> inherent impl"),
              R_TAKE,
+             Rw(r"self\.reader\.read\(&mut (?P<b>\w+)\)", r"vstd_read(&mut self.reader, &mut \g<b>)", regex=True, count=None, optional=True, why="std::io::Read::read into a whole Vec (assumed contract: any prefix, 0 only at the end or for an empty buffer)"),
+             Rw(r"vec!\[0; (?P<n>[^\]]+)\]", r"vzeroed_vec(\g<n>)", regex=True, count=None, optional=True, why="vec! macro -> stub returning a zero-filled Vec of that length"),
              R_ERR(),
          ],
          contract="""
